@@ -18,6 +18,8 @@ from concurrent.futures import ThreadPoolExecutor
 
 REPO = '/repo'
 FILES = ['emd/sift.py', 'emd/cycles.py', 'emd/_cycles_support.py', 'emd/spectra.py', 'emd/utils.py', 'emd/support.py', 'emd/logger.py']
+SWAP = {'min': 'max', 'max': 'min', 'argmin': 'argmax', 'argmax': 'argmin', 'floor': 'ceil', 'ceil': 'floor', 'any': 'all', 'all': 'any',
+        'cumsum': 'cumprod', 'sum': 'mean', 'mean': 'sum'}
 FLIP = {ast.Lt: ('<', '<='), ast.LtE: ('<=', '<'), ast.Gt: ('>', '>='), ast.GtE: ('>=', '>')}
 MAP = {
     'get_next_imf': ['C04'], 'sd_stop': ['C04'], 'rilling_stop': ['C04'], 'fixed_stop': ['C04'], 'energy_stop': ['C04'], '_energy_difference': ['C04'],
@@ -95,6 +97,26 @@ def more_sites(op):
                             out.append({'file': f, 'line': ln, 'col': start, 'old': line[start:end], 'new': '', 'fn': (cls + '.' if cls else '') + (fn or '?'),
                                         'props': props, 'text': line.strip()[:90]})
                 continue
+            if op == 'axis' and isinstance(node, ast.keyword) and node.arg == 'axis' and isinstance(node.value, ast.Constant) and node.value.value in (0, 1):
+                v = node.value
+                edit = (v.lineno, v.col_offset, v.end_col_offset, str(1 - v.value.real if False else 1 - v.value))
+            elif op == 'minmax' and isinstance(node, ast.Attribute) and node.attr in SWAP and node.lineno == node.end_lineno:
+                edit = (node.end_lineno, node.end_col_offset - len(node.attr), node.end_col_offset, SWAP[node.attr])
+            elif op == 'eqneq' and isinstance(node, ast.Compare) and len(node.ops) == 1 and isinstance(node.ops[0], (ast.Eq, ast.NotEq)) and \
+                    node.left.end_lineno == node.comparators[0].lineno:
+                ln = node.left.end_lineno
+                seg = lines[ln - 1][node.left.end_col_offset:node.comparators[0].col_offset]
+                old_ = '==' if isinstance(node.ops[0], ast.Eq) else '!='
+                if seg.strip() == old_:
+                    c0 = node.left.end_col_offset + seg.index(old_)
+                    edit = (ln, c0, c0 + 2, '!=' if old_ == '==' else '==')
+            elif op == 'andor' and isinstance(node, ast.BoolOp) and len(node.values) == 2 and node.values[0].end_lineno == node.values[1].lineno:
+                ln = node.values[0].end_lineno
+                seg = lines[ln - 1][node.values[0].end_col_offset:node.values[1].col_offset]
+                old_ = 'and' if isinstance(node.op, ast.And) else 'or'
+                if seg.strip() == old_:
+                    c0 = node.values[0].end_col_offset + seg.index(old_)
+                    edit = (ln, c0, c0 + len(old_), 'or' if old_ == 'and' else 'and')
             if edit is None:
                 continue
             fn, cls = context(node, parents)
